@@ -7,11 +7,11 @@ package simnet
 
 import (
 	"context"
-	"errors"
 	"fmt"
 	"io"
 	"net"
 	"os"
+	"syscall"
 	"time"
 
 	"verif/engine/vsched"
@@ -95,6 +95,18 @@ func New() *Net {
 		listeners: map[string]*Listener{}, peps: map[string]*PacketEP{}, nextPort: 40000}
 }
 
+// Errors have the concrete types the operating system's sockets return (*net.OpError around
+// net.ErrClosed / ECONNRESET / EPIPE; io.EOF bare): code that stores or compares error values
+// by type behaves as it does on real connections.
+func opErr(op, network string, err error) error {
+	return &net.OpError{Op: op, Net: network, Err: err}
+}
+
+var (
+	errReset = os.NewSyscallError("read", syscall.ECONNRESET)
+	errPipe  = os.NewSyscallError("write", syscall.EPIPE)
+)
+
 func now() int64 { return vsched.NowNS() }
 
 // wakeAt makes the virtual clock stop at t, so that goroutines that blocked before the
@@ -173,10 +185,10 @@ func (c *Conn) Read(p []byte) (int, error) {
 	vsched.Yield()
 	for {
 		if c.closed {
-			return 0, net.ErrClosed
+			return 0, opErr("read", "tcp", net.ErrClosed)
 		}
 		if c.rd.reset {
-			return 0, errors.New("read: connection reset by peer")
+			return 0, opErr("read", "tcp", errReset)
 		}
 		if c.rdl != 0 && now() >= c.rdl {
 			return 0, ErrTimeout
@@ -220,13 +232,13 @@ func (c *Conn) Write(p []byte) (int, error) {
 	total := 0
 	for {
 		if c.closed || w.closed {
-			return total, io.ErrClosedPipe
+			return total, opErr("write", "tcp", net.ErrClosed)
 		}
 		if w.reset {
-			return total, errors.New("write: connection reset by peer")
+			return total, opErr("write", "tcp", os.NewSyscallError("write", syscall.ECONNRESET))
 		}
 		if c.peer.closed {
-			return total, errors.New("write: broken pipe")
+			return total, opErr("write", "tcp", errPipe)
 		}
 		if c.wdl != 0 && now() >= c.wdl {
 			return total, ErrTimeout
@@ -299,7 +311,7 @@ func (l *Listener) Accept() (net.Conn, error) {
 	vsched.Yield()
 	for {
 		if l.closed {
-			return nil, net.ErrClosed
+			return nil, opErr("accept", "tcp", net.ErrClosed)
 		}
 		if len(l.q) > 0 {
 			c := l.q[0]
@@ -433,7 +445,7 @@ func (e *PacketEP) ReadFrom(p []byte) (int, net.Addr, error) {
 	vsched.Yield()
 	for {
 		if e.closed {
-			return 0, nil, net.ErrClosed
+			return 0, nil, opErr("read", "udp", net.ErrClosed)
 		}
 		best := -1
 		for i, d := range e.q {
@@ -478,7 +490,7 @@ func (n *Net) findEP(to net.Addr) *PacketEP {
 func (e *PacketEP) WriteTo(p []byte, to net.Addr) (int, error) {
 	vsched.Yield()
 	if e.closed {
-		return 0, net.ErrClosed
+		return 0, opErr("write", "udp", net.ErrClosed)
 	}
 	n := e.n
 	ua, _ := to.(*net.UDPAddr)
